@@ -100,6 +100,9 @@ type dbCase struct {
 	Msgs       []msg     `json:"msgs"`
 	Concurrent bool      `json:"concurrent"`
 	Yields     []int     `json:"yields,omitempty"` // concurrent mode: scheduler yields before message i
+	SendYields int       `json:"send_yields,omitempty"` // the reply consumer yields this often per reply (a slow connection)
+	Bulk       int       `json:"bulk,omitempty"`        // additional JSON records NS/bulk<i> in every database of the case
+	BulkDBs    []string  `json:"bulk_dbs,omitempty"`
 }
 
 var caseCounter atomic.Int64
